@@ -156,6 +156,7 @@ fn main() {
         "txcm" => vharness::txc::run_model(seed, n, thorough, &corpus, &dir),
         "txn" => vharness::txn::run(seed, n, thorough, &corpus, &dir),
         "txnm" => vharness::txn::run_model(seed, n, thorough, &corpus, &dir),
+        "ctlm" => vharness::txn::run_model_c(seed, n, thorough, &corpus, &dir),
         "cut" => vharness::cut::run(seed, n, thorough, &corpus, &dir),
         "cutm" => vharness::cutm::run(seed, n, thorough, &corpus, &dir),
         "e2e" => vharness::e2e::run(seed, n, thorough, &corpus, &dir),
